@@ -333,7 +333,16 @@ def run(pid, tier, seed):
 
         def do(ic):
             i, (case, lay, B, cont) = ic
-            return case.run(os.path.join(sc, "e2e", "c%d" % i), trace=True)
+            rr = case.run(os.path.join(sc, "e2e", "c%d" % i), trace=True)
+            rr.raw_ref = None
+            if case.note.get("colour") == "always":
+                # with colour the escape sequences are part of what is printed: the same run at a block size that holds the
+                # whole file in one block is the reference for them (byte for byte)
+                ref_argv = [("16777215" if j > 0 and case.argv[j - 1] == "--blocksz" else a_) for j, a_ in enumerate(case.argv)]
+                ref = Case(case.files, ref_argv, None, timeout=60).run(os.path.join(sc, "e2e", "r%d" % i))
+                rr.raw_ref = ref.out
+                rr.raw_out = rr.out
+            return rr
 
         t0 = time.time()
         with ThreadPoolExecutor(max_workers=10) as ex:
@@ -364,6 +373,12 @@ def run(pid, tier, seed):
             if case.note.get("colour") == "always":
                 from . import c13
                 rr.out = c13.SGR.sub(b"", rr.out)
+            if rr.out == case.expected and rr.raw_ref is not None and rr.raw_out != rr.raw_ref:
+                rep.violation("e2e:colour-by-blocksz:%s" % cont,
+                              "--color always: the bytes written (escape sequences included) at --blocksz %d differ from those at a block "
+                              "size holding the whole file, at byte %d (%d vs %d bytes)" % (B, first_diff(rr.raw_out, rr.raw_ref), len(rr.raw_out), len(rr.raw_ref)),
+                              case.replay_record(rr))
+                continue
             if rr.out == case.expected:
                 if len(e2e_samples) < 2 and crossing:
                     e2e_samples.append({"blocksz": B, "container": cont, "size": lay.size, "lines": len(lay.lines),
